@@ -1,7 +1,7 @@
 (* C09 — pinned property theorems about the keep-alive part of the shared TransportService model
    (coq/Ts), in logical time. This file contains statements, `exact`, and Print Assumptions only. *)
 From Coq Require Import List NArith Bool.
-From V.Ts Require Import Model Proofs Rearm Timing.
+From V.Ts Require Import Model Proofs Rearm Timing Extra Exact Names Multi MultiProofs.
 Import ListNotations.
 Open Scope N_scope.
 
@@ -167,6 +167,163 @@ Proof.
   - intros c. apply busy_strong.
 Qed.
 Print Assumptions C09_idle_close_exact.
+
+(* ---- per connection, both connections of a peer, across promotion ----
+   EXACT characterisation: at the end of every feasible history, for EVERY open connection k of a
+   peer — primary or secondary, also a former secondary that was promoted — the service's handle
+   of k is Active if and only if the last keep-alive activity on k (independent specification,
+   ghost log) is less than T old. (efinal = the set of open connections after the history.) *)
+Theorem C09_active_iff_recent :
+  forall tr ka T n0 k,
+  feasible 2 env0 (init ka T n0) tr = true ->
+  In k (e_live (efinal env0 tr)) ->
+  let s := final (init ka T n0) tr in
+  exists t, kfind k (s_act s) = Some t /\ t <= s_now s /\
+            (handle_active (s_ctxs s) k = true <-> s_now s < t + s_T s).
+Proof. exact active_iff_recent. Qed.
+Print Assumptions C09_active_iff_recent.
+
+(* a tracked connection always has an Active handle (feasible histories) *)
+Theorem C09_tracked_is_active :
+  forall tr ka T n0 k t,
+  feasible 2 env0 (init ka T n0) tr = true ->
+  kfind k (s_last (final (init ka T n0) tr)) = Some t ->
+  handle_active (s_ctxs (final (init ka T n0) tr)) k = true.
+Proof.
+  intros tr ka T n0 k t F. apply (ex_trk _ _ (exact_final tr env0 (init ka T n0) (exact_init ka T n0) F)).
+Qed.
+Print Assumptions C09_tracked_is_active.
+
+(* the view lists exactly the open connections in establishment order (primary = oldest), and an
+   open_substream of a keep-alive protocol counts as activity for the oldest open connection —
+   after the primary has closed that is the former secondary: its timeout is re-armed by opens
+   from then on *)
+Theorem C09_view_is_live :
+  forall tr ka T n0 p,
+  feasible 2 env0 (init ka T n0) tr = true ->
+  conn_ids (s_ctxs (final (init ka T n0) tr)) p = live_of p (e_live (efinal env0 tr)).
+Proof. exact view_final. Qed.
+Print Assumptions C09_view_is_live.
+
+Theorem C09_open_counts_for_primary :
+  forall e s p k,
+  conn_inv e (s_ctxs s) (s_pend s) -> ka_activity_of s (EOpen p) = Some k ->
+  fst k = p /\ hd_error (live_of p (e_live e)) = Some (snd k) /\ s_ka s = true.
+Proof. exact open_counts_for_primary. Qed.
+Print Assumptions C09_open_counts_for_primary.
+
+(* activity on one connection (or no activity at all) leaves the recorded time, the ghost log and
+   an Active handle of every other connection untouched — in particular those of the peer's other
+   connection, and those of the secondary while the primary is being closed (promotion) *)
+Theorem C09_other_connection_untouched :
+  forall e s dt i k,
+  conn_inv e (s_ctxs s) (s_pend s) -> ev_ok 2 e s i = true ->
+  ka_activity_of (with_now s (s_now s + dt)) i <> Some k -> (forall p c, i = EClosed p c -> k <> (p, c)) ->
+  kfind k (s_last (fst (mid s dt i))) = kfind k (s_last s) /\
+  kfind k (s_act (fst (mid s dt i))) = kfind k (s_act s) /\
+  (handle_active (s_ctxs s) k = true -> handle_active (s_ctxs (fst (mid s dt i))) k = true).
+Proof. exact other_connection_untouched. Qed.
+Print Assumptions C09_other_connection_untouched.
+
+(* non-vacuity of the promotion statement: T = 300; connections 1 and 2 of peer 0 at time 0; the
+   primary closes at 100; an open at 200 goes to connection 2 and re-arms it: polls at 400 (re-arm)
+   and 600 (downgrade at 200 + 300 = 500 <= 600) *)
+Example C09_nonvacuous_promotion :
+  let tr := [(0, EEst 0 1); (0, EEst 0 2); (100, EClosed 0 1); (100, EOpen 0); (200, ENone); (200, ENone)] in
+  feasible 2 env0 (init true 300 0) tr = true /\
+  concat (run (init true 300 0) tr) = [OEst 0; ORet 0 0; OCmd 2 0; ODown 0 2] /\
+  concat (run (init true 300 0) (firstn 5 tr)) = [OEst 0; ORet 0 0; OCmd 2 0].
+Proof. vm_compute. repeat split; reflexivity. Qed.
+
+(* ---- several protocols with their own keep-alive timeouts on one connection (Multi.v) ----
+   THE CONNECTION CLOSES ONLY WHEN ALL HAVE LET GO, AND THEN IT DOES. At the end of every feasible
+   history of the composition (any number of services, any keep-alive flags, any timeouts T_j),
+   for every open connection (p, c): the command channel of c has no strong sender left — the
+   connection task's next() returns None and the connection closes — if and only if EVERY
+   service has let go of it: its own last keep-alive activity on (p, c) (independent
+   specification) is at least its own T_j old, none of its keep-alive substreams lives on c and
+   none of its opens is queued or in flight on c. Each service keeps its configured (flag, T_j),
+   and all clocks agree. *)
+Theorem C09_multi_closed_iff_all_let_go :
+  forall tr cap cfg n0 p c,
+  mfeasible 2 env0 (minit cap cfg n0) tr = true -> In (p, c) (e_live (mefinal env0 tr)) ->
+  let m := mfinal (minit cap cfg n0) tr in
+  (mstrong (m_svcs m) c = 0 <-> Forall (fun s => let_go s (p, c)) (m_svcs m)) /\
+  map (fun s => (s_ka s, s_T s)) (m_svcs m) = cfg /\
+  Forall (fun s => s_now s = elapsed tr) (m_svcs m).
+Proof. exact multi_closed_iff. Qed.
+Print Assumptions C09_multi_closed_iff_all_let_go.
+
+(* each service inside the composition: for every open connection its handle is Active exactly
+   while ITS last keep-alive activity is less than ITS timeout old *)
+Theorem C09_multi_active_iff_recent :
+  forall tr cap cfg n0 s k,
+  mfeasible 2 env0 (minit cap cfg n0) tr = true ->
+  In s (m_svcs (mfinal (minit cap cfg n0) tr)) -> In k (e_live (mefinal env0 tr)) ->
+  exists t, kfind k (s_act s) = Some t /\ t <= s_now s /\
+            (handle_active (s_ctxs s) k = true <-> s_now s < t + s_T s).
+Proof. exact multi_active_iff. Qed.
+Print Assumptions C09_multi_active_iff_recent.
+
+(* next() of the connection task: None exactly when the queue is empty and no strong sender is left *)
+Theorem C09_multi_next_none_iff :
+  forall m dt c,
+  In c (m_sets m) ->
+  (snd (snd (mstep m dt (MNext c))) = NEnd <->
+   qfind c (push_all 0 (m_q m) (fst (snd (mstep m dt (MNext c))))) = [] /\
+   mstrong (m_svcs (fst (mstep m dt (MNext c)))) c = 0).
+Proof. exact next_none_iff. Qed.
+Print Assumptions C09_multi_next_none_iff.
+
+(* non-vacuity: a keep-alive protocol with T = 300 and one with T = 500 on connection 1; polled at
+   400 the first lets go (downgrade), the channel keeps the second one's strong sender (next() is
+   Pending); polled at 600 the second lets go too: no strong sender, next() returns None *)
+Example C09_multi_nonvacuous :
+  let tr := [(0, MAll (EEst 0 1)); (400, MNext 1); (200, MNext 1)] in
+  let m0 := minit 4 [(true, 300); (true, 500)] 0 in
+  mfeasible 2 env0 m0 tr = true /\
+  mrun m0 tr = [([[OEst 0]; [OEst 0]], NNo); ([[ODown 0 1]; []], NPending); ([[]; [ODown 0 1]], NEnd)] /\
+  mstrong (m_svcs (mfinal m0 (firstn 2 tr))) 1 = 1 /\ mstrong (m_svcs (mfinal m0 tr)) 1 = 0.
+Proof. vm_compute. repeat split; reflexivity. Qed.
+
+(* ---- which substreams hold the connection: the name tables of ProtocolSet::new (Names.v) ----
+   The connection decides whether an ACCEPTED INBOUND substream stores a lifetime permit by looking
+   the negotiated name up in `keep_alives`. For every table of installed protocols with pairwise
+   distinct names: every negotiable name — the main name and EVERY fallback name of a protocol —
+   is classified with the keep-alive flag of the protocol it belongs to; a fallback name is
+   reported to the protocol under its main name (so the TransportService counts it as activity);
+   names outside the table are not offered. *)
+Theorem C09_name_table_main :
+  forall tbl pr,
+  NoDup (all_names tbl) -> In pr tbl ->
+  classify tbl (p_main pr) = Some (p_ka pr) /\ resolve tbl (p_main pr) = (p_main pr, None).
+Proof. intros tbl pr ND HIn. split; [apply classify_main | apply resolve_main]; assumption. Qed.
+Print Assumptions C09_name_table_main.
+
+Theorem C09_name_table_fallback :
+  forall tbl pr f,
+  NoDup (all_names tbl) -> In pr tbl -> In f (p_fbs pr) ->
+  classify tbl f = Some (p_ka pr) /\ resolve tbl f = (p_main pr, Some f).
+Proof. exact classify_fallback. Qed.
+Print Assumptions C09_name_table_fallback.
+
+Theorem C09_name_table_nothing_else :
+  forall tbl nm, NoDup (map p_main tbl) -> ~ In nm (all_names tbl) -> classify tbl nm = None.
+Proof. exact classify_none. Qed.
+Print Assumptions C09_name_table_nothing_else.
+
+(* pinning the table: looking the flag up under the negotiated name itself (instead of resolving a
+   fallback name to its protocol first) classifies the fallback names of a keep-alive protocol as
+   "does not hold the connection" — a substream accepted over such a name would lose its permit *)
+Theorem C09_name_table_own_name_lookup_refuted :
+  exists tbl pr f,
+  NoDup (all_names tbl) /\ In pr tbl /\ In f (p_fbs pr) /\
+  classify tbl f = Some true /\ classify_by_own_name tbl f = Some false.
+Proof.
+  exists [mkP 2 [1] true; mkP 5 [] false], (mkP 2 [1] true), 1.
+  vm_compute. repeat split; try (left; reflexivity); repeat constructor; cbn; intuition discriminate.
+Qed.
+Print Assumptions C09_name_table_own_name_lookup_refuted.
 
 (* non-vacuity: T = 300; established at 0, an open at 200 (keep-alive protocol) moves the close
    from 300 to 500: polls at 400 (re-arm) and 600 (downgrade); the permit in flight keeps the
